@@ -117,6 +117,8 @@ class Check:
         if same >= 2 or len([v for v in self.violations if v is not None]) >= 12:
             self.violations.append(None)  # counted, not stored
             return
+        if len(what) > 700:
+            what = what[:520] + " ... " + what[-160:]
         self.violations.append({"signature": signature, "what": what, "replay": replay})
 
     def drift(self, what: str):
